@@ -1,0 +1,8 @@
+//go:build verif
+
+package state
+
+// Accessors used by the verification tooling (build tag "verif").
+
+// VerifClose releases the LevelDB handle (the tooling opens thousands of state directories).
+func (s *LevelDBState) VerifClose() error { return s.stateDb.Close() }
